@@ -97,6 +97,33 @@ func specToGo(e SExpr) (string, error) {
 	return "", fmt.Errorf("global_inv: expression %s cannot be evaluated by execution", e)
 }
 
+// substSelf replaces the identifier `self` by a package variable.
+func substSelf(e SExpr, name string) SExpr {
+	switch x := e.(type) {
+	case *SIdent:
+		if x.Name == "self" {
+			return &SIdent{Name: name}
+		}
+		return x
+	case *SSel:
+		return &SSel{X: substSelf(x.X, name), Sel: x.Sel}
+	case *SUn:
+		return &SUn{Op: x.Op, X: substSelf(x.X, name)}
+	case *SBin:
+		return &SBin{Op: x.Op, X: substSelf(x.X, name), Y: substSelf(x.Y, name)}
+	case *SDeref:
+		return &SDeref{X: substSelf(x.X, name)}
+	case *SCall:
+		c := *x
+		c.Args = nil
+		for _, a := range x.Args {
+			c.Args = append(c.Args, substSelf(a, name))
+		}
+		return &c
+	}
+	return e
+}
+
 func checkGlobalInvs(w *World, sp *Specs, mods *ModAnalysis) []globalInvResult {
 	var out []globalInvResult
 	pkgs := map[string]bool{}
@@ -138,6 +165,30 @@ func checkGlobalInvs(w *World, sp *Specs, mods *ModAnalysis) []globalInvResult {
 				for j := i + 1; j < len(ns); j++ {
 					fmt.Fprintf(&b, "\tchk(%q, %s != %s)\n", "auto:"+pk+"."+ns[i]+" != "+ns[j], ns[i], ns[j])
 				}
+			}
+		}
+		// the (executable, quantifier-free) type invariants of every final package variable that points to a struct:
+		// a prototype object that initialisation forgot to build is found here
+		for _, n := range names {
+			g := sp2.Members[n].(*ssa.Global)
+			pt, ok := g.Type().(*types.Pointer).Elem().Underlying().(*types.Pointer)
+			if !ok {
+				continue
+			}
+			nt, ok := pt.Elem().(*types.Named)
+			if !ok || nt.Obj().Pkg() == nil {
+				continue
+			}
+			key := nt.Obj().Pkg().Name() + "." + nt.Obj().Name()
+			for _, ti := range sp.TypeInvs {
+				if ti.Type != key || ti.Assumed {
+					continue
+				}
+				ge, err := specToGo(substSelf(ti.Expr, n))
+				if err != nil {
+					continue // quantified or spec-function invariants are not executable
+				}
+				fmt.Fprintf(&b, "\tchk(%q, %s)\n", "auto-inv:"+pk+"."+n+" satisfies the invariant of "+key+": "+ti.Text, ge)
 			}
 		}
 		for _, gi := range sp.GlobalInvs {
